@@ -206,6 +206,35 @@ fn skip_container_loop(
     None
 }
 
+/// Verification hooks: the block primitives of the unchecked container skipper.
+#[cfg(sonic_rs_verif)]
+pub(crate) mod verif_block {
+    /// `get_escaped_branchless_u64`: (escaped mask, new `prev_escaped`)
+    pub fn escaped(prev_escaped: u64, backslash: u64) -> (u64, u64) {
+        let mut p = prev_escaped;
+        let e = super::get_escaped_branchless_u64(&mut p, backslash);
+        (e, p)
+    }
+    /// `get_string_bits`: (in-string mask, new `prev_instring`, new `prev_escaped`)
+    pub fn string_bits(data: &[u8; 64], prev_instring: u64, prev_escaped: u64) -> (u64, u64, u64) {
+        let (mut pi, mut pe) = (prev_instring, prev_escaped);
+        let m = super::get_string_bits(data, &mut pi, &mut pe);
+        (m, pi, pe)
+    }
+    /// `skip_container_loop` on one block: (bytes consumed if the container closed here, new state)
+    #[allow(clippy::type_complexity)]
+    pub fn container_block(
+        data: &[u8; 64],
+        state: (u64, u64, usize, usize),
+        left: u8,
+        right: u8,
+    ) -> (Option<u8>, (u64, u64, usize, usize)) {
+        let (mut pi, mut pe, mut l, mut r) = state;
+        let c = super::skip_container_loop(data, &mut pi, &mut pe, &mut l, &mut r, left, right);
+        (c.map(|x| x.get()), (pi, pe, l, r))
+    }
+}
+
 pub(crate) struct Pair<'de> {
     pub key: Cow<'de, str>,
     pub val: &'de [u8],
